@@ -118,9 +118,11 @@ func Prebuild() {
 	if prebuild.Version != nilVer {
 		logging.Success("AppArmor version targeted: %.1f", prebuild.Version)
 	}
+	verifTap("tasks", nil, "")
 	if err := Prepare(); err != nil {
 		logging.Fatal("%s", err.Error())
 	}
+	verifTap("prepared", nil, "")
 	if err := Build(); err != nil {
 		logging.Fatal("%s", err.Error())
 	}
@@ -163,10 +165,12 @@ func Build() error {
 		if err != nil {
 			return err
 		}
+		verifTap("built", file, profile)
 		profile, err = directive.Run(file, profile)
 		if err != nil {
 			return err
 		}
+		verifTap("expanded", file, profile)
 		if err := file.WriteFile([]byte(profile)); err != nil {
 			return err
 		}
